@@ -234,3 +234,17 @@ mod test {
         );
     }
 }
+
+#[cfg(gm_rs_verif)]
+pub mod verif_hooks {
+    //! Read-only accessors for private constants (verification builds only).
+    pub fn iv() -> [u32; 8] {
+        crate::IV
+    }
+    pub fn t00() -> u32 {
+        crate::T00
+    }
+    pub fn t16() -> u32 {
+        crate::T16
+    }
+}
